@@ -79,6 +79,7 @@ let comp_shape (l : link) : string =
 
 let inv (kind : string) (l1 : link) (l2 : link) : string =
   if diverges l1 || diverges l2 then "DIVERGE"
+  else if kind = "mirror" && mirror l1 <> l2 then "MIRROR-DATA-DIFFER"
   else begin
     let s1 = crossing_signs l1 and s2 = crossing_signs l2 in
     let w1 = writhe l1 and w2 = writhe l2 in
